@@ -19,6 +19,7 @@
 #include <time.h>
 
 namespace sim {
+void (*deadlock_hook)(const char* what) = nullptr;
 
 // ---------------------------------------------------------------- plan text
 std::string
@@ -675,6 +676,8 @@ run_in_child(const Harness& h, const Plan& p, int timeout_s, Result* out = nullp
     return WTERMSIG(st) == SIGALRM ? 3 : 2;
   if (WIFEXITED(st) && WEXITSTATUS(st) == 77)
     return 2;
+  if (WIFEXITED(st) && WEXITSTATUS(st) == 78)
+    return 4; // the simulated OpenMP runtime found every thread blocked: deadlock
   return WIFEXITED(st) ? (WEXITSTATUS(st) ? 1 : 0) : 1;
 }
 
@@ -788,6 +791,19 @@ main_driver(int argc, char** argv, Harness& h)
           return 2;
         }
       json_get_string(doc, "oracle", want_oracle);
+      {
+        static std::string s_path, s_want;
+        static const char* s_prop;
+        s_path = path;
+        s_want = want_oracle;
+        s_prop = h.prop;
+        deadlock_hook = [](const char* what) {
+          printf("replay result=violation oracle=deadlock detail=%s\n", what);
+          printf("VIOLATION property=%s replay=%s\n", s_prop, s_path.c_str());
+          fflush(nullptr);
+          _exit((s_want.empty() || s_want == "deadlock") ? 1 : 3);
+        };
+      }
       Result r = execute(h, p);
       printf("replay result=%s oracle=%s detail=%s hash=%llx\n", r.status.c_str(), r.oracle.c_str(), r.detail.c_str(),
              (unsigned long long)r.hash);
@@ -821,8 +837,10 @@ main_driver(int argc, char** argv, Harness& h)
           Plan mini = m.run(p);
           ::unlink(g_child_stderr.c_str());
           r.status = "violation";
-          r.oracle = rc1 == 3 ? "hang" : site;
-          r.detail = rc1 == 3 ? "run exceeded 600 s" : "process died (signal or sanitizer report) while executing the plan";
+          r.oracle = rc1 == 3 ? "hang" : (rc1 == 4 ? std::string("deadlock") : site);
+          r.detail = rc1 == 3 ? "run exceeded 600 s"
+                              : (rc1 == 4 ? "every simulated thread is blocked on a lock, critical section or barrier (exit code 78 of the scheduler)"
+                                          : "process died (signal or sanitizer report) while executing the plan");
           replay = replay_dir + "/" + h.prop + "-" + std::to_string(p.seed) + ".json";
           write_replay(replay, h, p, mini, r, tier, m.used);
         }
